@@ -1041,6 +1041,93 @@ def analyse_pass_dochan(db, rep):
     return sites
 
 
+class PassStartHooks(PassHooks):
+    """pass_dochan(c) from "no pass open" with a due entry: what the job that is opened records"""
+    def __init__(self, c):
+        super().__init__(c)
+        self.rows = []
+        self.nr = []
+
+    def site(self, *a, **k):
+        pass
+
+    def tracked_global(self, path):
+        return True
+
+    def precise_arith(self, path):
+        return True
+
+    def materialize(self, E, path):
+        if path == 'G:jo':
+            return fs(('&', 'JO[0]'))
+        return TOP
+
+    def prim_job_avail(self, E, x, args):
+        return [Outcome(ret=fs(1))]
+
+    def prim_prioq_min(self, E, x, args):
+        pe = g1v(args[1])
+        q = x.args[0].strip().args[0].src() if x.args[0].strip().k == 'un' else x.args[0].src()
+        return [Outcome(ret=fs(1), sets={pe[1] + '.dt': fs(g1(E, 'G:recent') - 1), pe[1] + '.id': fs(77), '$minq': fs(q)})]
+
+    def prim_prioq_delmin(self, E, x, args):
+        return [Outcome(ret=TOP)]
+
+    def prim_open_read(self, E, x, args):
+        return [Outcome(ret=fs(('fd', 'chan')))]
+
+    def prim_getinfo(self, E, x, args):
+        bp = g1v(args[1])
+        if not (isinstance(bp, tuple) and bp[0] == '&'):
+            raise AnalysisBroken('pass_dochan: getinfo() is not handed the address of the birth time')
+        return [Outcome(ret=fs(1), sets={bp[1]: fs(1000), '$birthvar': fs(bp[1])})]
+
+    def prim_job_open(self, E, x, args):
+        E.set('$owner', fs('job'))
+        E.set('$jobargs', fs((g1v(args[0]), g1v(args[1]))))
+        return [Outcome(ret=fs(1))]
+
+    def prim_nextretry(self, E, x, args):
+        self.nr.append((g1v(args[0]), g1v(args[1])))
+        return [Outcome(ret=fs(5555))]
+
+    def prim_stralloc_copy(self, E, x, args):
+        return [Outcome(ret=fs(1))]
+
+    def prim_del_avail(self, E, x, args):
+        return [Outcome(ret=fs(0))]
+
+    def on_return(self, E, fn, val):
+        if fn.name == 'pass_dochan' and g1(E, '$owner') == 'job':
+            self.rows.append((g1(E, 'G:recent'), g1(E, 'JO[1].retry'), g1(E, 'JO[1].flagdying'), g1(E, '$jobargs'), E.trace.list()))
+
+
+def analyse_pass_start(db, rep):
+    prog = db.program('qmail-send')
+    fn = prog.fn('pass_dochan', 'qmail-send.c')
+    bad = {}
+    n = 0
+    for c in (0, 1):
+        for recent in (1050, 1100, 1101, 5000):
+            H = PassStartHooks(c)
+            eng = Engine(db, prog, H)
+            eng.run(fn, {'pass_dochan::P:c': fs(c), 'G:pass[%d].id' % c: fs(0), 'G:flagexitasap': fs(0), 'G:recent': fs(recent), 'G:lifetime': fs(100)})
+            rep.count_states(eng.states, eng.transitions)
+            for rc, retry, dying, jargs, tr in H.rows:
+                n += 1
+                if retry != 5555 or not H.nr or any(a != (1000, c) for a in H.nr):
+                    bad.setdefault('pass:job-retry-time=nextretry(birth-from-the-info-file,channel)',
+                                   ('the job records retry=%s; nextretry() was called with %s (documented: nextretry(birth read by getinfo = 1000, channel %d))' % (retry, H.nr, c), tr))
+                if dying != (1 if rc > 1100 else 0):
+                    bad.setdefault('pass:flagdying-iff-age>lifetime', ('birth 1000, lifetime 100, now %d: the job records flagdying=%s (documented: now > birth + lifetime)' % (rc, dying), tr))
+                if jargs != (77, c):
+                    bad.setdefault('pass:job-opened-for-the-entry-taken', ('job_open%s for entry 77 of channel %d' % (jargs, c), tr))
+    if n < 8 and not bad:
+        raise AnalysisBroken('pass_dochan: %d pass starts explored' % n)
+    return {k: (k not in bad, 'qmail-send.c:pass_dochan', bad[k][0] if k in bad else '', bad[k][1] if k in bad else [])
+            for k in ('pass:job-retry-time=nextretry(birth-from-the-info-file,channel)', 'pass:flagdying-iff-age>lifetime', 'pass:job-opened-for-the-entry-taken')}
+
+
 # =============================================================================== job_close
 class JobCloseHooks(SendHooks):
     def on_branch(self, E, cond, truth):
